@@ -1,5 +1,6 @@
 //! `mon` — runtime monitors for lnx-search/datacake (see /verif/DESIGN.md).
 mod actor;
+mod cluster;
 mod common;
 mod crdt;
 mod hlc;
@@ -13,6 +14,11 @@ use common::Args;
 fn main() {
     let args = Args::parse();
     match args.prop.as_str() {
+        "C01" => cluster::c01(&args),
+        "C02-cluster" => cluster::c02_cluster(&args),
+        "C06" => cluster::c06(&args),
+        "C08-cluster" => cluster::c08_cluster(&args),
+        "C16-e2e" => cluster::c16_e2e(&args),
         "C02" => actor::c02(&args),
         "C07" => actor::c07(&args),
         "C18" => actor::c18(&args),
